@@ -95,12 +95,21 @@ def make_oo(magpy, cls, ps):
     raise ValueError(cls)
 
 
-def functional_case(magpy, r, cls, given, field, tid):
+def functional_case(magpy, r, cls, given, field, tid, in_out=None):
     from magpylib._src.exceptions import MagpylibBadUserInput
     sets = {}
+    io = {} if in_out is None else {"in_out": in_out}
     for p, g in given.items():
         k = g["n"] if g["multi"] else 1
         sets[p] = [gen_param(r, cls, p, i) for i in range(k)]
+    if in_out is not None:
+        # observers strictly inside the body for the odd instances (truthful or not, both interfaces receive the same in_out)
+        nobs = len(sets["observers"])
+        for i in range(nobs):
+            if i % 2 == 1 or nobs == 1:
+                pos = sets["position"][i if len(sets["position"]) > 1 else 0]
+                ori = R.from_quat(sets["orientation"][i if len(sets["orientation"]) > 1 else 0])
+                sets["observers"][i] = pos + ori.apply(np.array([0.12, 0.1, 0.08]))
     kwargs = {}
     for p, g in given.items():
         vals = sets[p]
@@ -116,10 +125,11 @@ def functional_case(magpy, r, cls, given, field, tid):
         kwargs[p] = arr
     obs = kwargs.pop("observers")
     fn = {"B": magpy.getB, "H": magpy.getH, "J": magpy.getJ, "M": magpy.getM}[field]
-    ev = {"tid": tid, "kind": "functional", "what": cls, "cls": cls, "field": field, "given": given, "outcome": "ok", "nrows": 0, "rows": [], "oo": [], "fin": True}
+    ev = {"tid": tid, "kind": "functional", "what": cls + ("" if in_out is None else ":in_out=" + in_out), "cls": cls, "field": field, "given": given, "outcome": "ok",
+          "nrows": 0, "rows": [], "oo": [], "fin": True}
     out = None
     try:
-        out = np.asarray(fn(cls, obs, squeeze=False, **kwargs), dtype=float)
+        out = np.asarray(fn(cls, obs, squeeze=False, **io, **kwargs), dtype=float)
     except MagpylibBadUserInput:
         ev["outcome"] = "bad_input"
     except Exception as ex:  # pylint: disable=broad-except
@@ -135,7 +145,7 @@ def functional_case(magpy, r, cls, given, field, tid):
                 ps = {p: sets[p][i if (given[p]["multi"] and given[p]["n"] > 1 and i < len(sets[p])) else 0] for p in given}
                 src = make_oo(magpy, cls, ps)
                 f2 = {"B": src.getB, "H": src.getH, "J": src.getJ, "M": src.getM}[field]
-                oo.append(np.asarray(f2(ps["observers"]), dtype=float))
+                oo.append(np.asarray(f2(ps["observers"], **io), dtype=float))
             oo = np.array(oo).reshape(-1, 3)
             s = quant.gross(out, oo)
             ev["fin"] = bool(np.isfinite(out).all() and np.isfinite(oo).all())
@@ -152,8 +162,9 @@ def run_functional(args):
     r = rng(salt)
     n = 0
     with open(path, "w") as f:
-        for i, (cls, given) in enumerate(combos):
-            ev = functional_case(magpy, r, cls, given, "BHBHJM"[i % 6], tid0 + n)
+        for i, combo in enumerate(combos):
+            cls, given = combo[0], combo[1]
+            ev = functional_case(magpy, r, cls, given, "BHBHJM"[i % 6], tid0 + n, in_out=(combo[2] if len(combo) > 2 else None))
             f.write(json.dumps(ev, separators=(",", ":")) + "\n")
             n += 1
     return n
@@ -299,6 +310,27 @@ def core_events(args):
                     out = magpy.core.triangle_Bfield(observers=obs, vertices=v, polarizations=pol)
                     oo = [magpy.misc.Triangle(vertices=v[j], polarization=pol[j]).getB(obs[j]) for j in range(N)]
                     what = "core.triangle_Bfield"
+                if i % 7 == 3:
+                    # cylinder segment core function (cylindrical coordinates, angles in rad, magnetization in spherical coordinates)
+                    full = i % 2 == 0
+                    dims, obs_c, mags, oo = [], [], [], []
+                    for j in range(N):
+                        r1 = r.uniform(0.2, 0.6) if j % 2 == 0 else 0.0
+                        r2 = r1 + r.uniform(0.3, 0.8)
+                        h = r.uniform(0.5, 1.5)
+                        p1 = 0.0 if full else r.uniform(-90, 90)
+                        p2 = 360.0 if full else p1 + r.uniform(40, 200)
+                        pol_ = gen_param(r, "", "polarization", j)
+                        o = obs[j]
+                        dims.append([r1, r2, np.deg2rad(p1), np.deg2rad(p2), -h / 2, h / 2])
+                        obs_c.append([np.hypot(o[0], o[1]), np.arctan2(o[1], o[0]), o[2]])
+                        mm = np.linalg.norm(pol_) / mu0
+                        mags.append([mm, np.arctan2(pol_[1], pol_[0]), np.arctan2(np.hypot(pol_[0], pol_[1]), pol_[2])])
+                        oo.append(magpy.magnet.CylinderSegment(dimension=(r1, r2, h, p1, p2), polarization=pol_).getH(o))
+                    Hc = np.asarray(magpy.core.magnet_cylinder_segment_Hfield(observers=np.array(obs_c), dimensions=np.array(dims), magnetizations=np.array(mags)))
+                    ph = np.array(obs_c)[:, 1]
+                    out = np.stack([Hc[:, 0] * np.cos(ph) - Hc[:, 1] * np.sin(ph), Hc[:, 0] * np.sin(ph) + Hc[:, 1] * np.cos(ph), Hc[:, 2]], axis=1)
+                    what = "core.magnet_cylinder_segment_Hfield" + (":full" if full else "")
                 out = np.asarray(out, dtype=float).reshape(-1, 3)
                 oo = np.asarray(oo, dtype=float).reshape(-1, 3)
                 s_ = quant.gross(out, oo)
